@@ -207,7 +207,10 @@ impl TcpFlow {
 
         let mut sorted_data = data.clone();
 
-        sorted_data.sort_by_key(|tcp_data| tcp_data.sequence);
+        // Sequence numbers live on a circle of 2^32 values: order the segments by their signed
+        // distance (serial number arithmetic, RFC 1982) from the first one stored, not by raw value
+        let base = data.first().map_or(0, |tcp_data| tcp_data.sequence);
+        sorted_data.sort_by_key(|tcp_data| tcp_data.sequence.wrapping_sub(base) as i32);
 
         let mut full_data = Vec::new();
         for tcp_data in sorted_data {
